@@ -169,7 +169,10 @@ Nud(B, P, t) ==
                          ELSE POk([k |-> "Regex", s |-> (IF Fl = <<>> THEN <<>> ELSE <<40, 63>> \o Fl \o <<41>>) \o U.s], P)
       [] ty = "*" -> POk([k |-> "Wildcard"], P)
       [] ty = "**" -> POk([k |-> "Descendent"], P)
-      [] ty = "-" -> LET E == ParseExpr(B, P, 60) IN IF E.err THEN E ELSE POk([k |-> "Negation", e |-> E.node], E.P)
+      \* G1: a prefix minus takes the operand that follows it and nothing more: postfix ( ) [ ], . and { } bind tighter, every
+      \* infix operator of the table is looser, so the infix operators around a negated operand group as the table says
+      \* (8 / -2 / 2 is (8 / -2) / 2: "operators of equal precedence group to the left")
+      [] ty = "-" -> LET E == ParseExpr(B, P, 70) IN IF E.err THEN E ELSE POk([k |-> "Negation", e |-> E.node], E.P)
       [] ty = "[" -> LET L == ParseList(B, P, "]", <<>>, TRUE) IN
                      IF L.err THEN L
                      ELSE LET C == Consume(B, L.P, "]", FALSE) IN IF C.ok THEN POk([k |-> "Array", items |-> L.node], C.P) ELSE PErr(L.P)
